@@ -322,6 +322,7 @@ if _prev_gas is not None:
 R.EXTERNALS["inspect.getattr_static"] = R.ExtFn(_getattr_static3)
 R.EXTERNALS["builtins.callable"] = R.ExtFn(lambda ip, a, kw, node: ZB(L.fn("is_callable_py", L.V, L.B)(as_v(a[0]))))
 R.METHODS[("Val", "__isinstance__:type")] = None
+declare_pred("frames_from", L.V, L.V, tag="Seq[Frame]")   # the frame and its callers (f_back chain), innermost first
 prev_locals = declare_pred("prev_locals", L.V, L.V, tag="Seq[Callee]")   # values of f_locals of the frame and of all its callers
 
 # a function object's __code__ is what code_of() denotes on resolved functions (one notion for frames, functions and lookup candidates)
